@@ -77,9 +77,9 @@ KNOWN = {}
 def describe(tier):
     return {
         "rule": "every sequence of VALID add calls from the C12 menus (rpms: 17 calls over 3 cells, source packages with binary, "
-                "debuginfo and source sub-packages, epoch 2, names with dashes and digits, null / upper / mixed-case signing keys, "
+                "debuginfo and source sub-packages, epochs 2 and 10, names with dashes and digits, null / upper / mixed-case signing keys, "
                 "'.rpm' suffixes and directory prefixes; modules: 2-, 3-, 4-part UIDs in 3 categories over 2 cells; extra files with 1 "
-                "and 3 checksum types, repeated entries), deduplicated on the model state.  At every reachable state: the real object "
+                "and 3 checksum types, repeated entries, each tree exported with dump_for_tree before the cycle), deduplicated on the model state.  At every reachable state: the real object "
                 "is stepped in lockstep with the layout model, written, re-read into a fresh object, the re-read mapping compared "
                 "with the MODEL's mapping, compose section intact, second write byte-identical, header type/version current.  "
                 "Non-trivial: a state built by >= 2 calls.",
